@@ -25,15 +25,32 @@ Proved for ALL libraries, packages, caches, fetched streams:
                                   by corpus/authentic/F05*.json);
 * `swapped_control_rejected`, `swapped_data_rejected`, `modified_file_rejected`, `missing_record_not_installed`
                                   the tamperings of the property text, as corollaries;
-* `ops_authentic`                 for every sequence of lock/build operations starting from an empty cache root, every package
-                                  of an operation whose verdict is `ok` was expanded to authentic bytes.
-* `spec_ok_sound`                 the oracle evaluated by the driver (`Spec.pkgVerdict`) answers `ok` only when the candidate bytes
-                                  satisfy the three relations in their strict form (a data hash IS recorded and matches).
+* `expandVia_spec` (round 2)      `(*APK).expandPackage` with the process-wide memo of expansions (`globalApkCache`, keyed by URL):
+                                  invariant `MemoInv` — every memoised success is authentic for the checksum of the handle it was
+                                  made for; an entry answers a handle only when it was made for the same checksum string, any other
+                                  handle is expanded and verified directly — so a success is authentic for THIS handle's checksum.
+                                  FALSE without the memo check (`memo_without_check_installs_other_checksum`: F05d, repaired by a
+                                  `fix:` commit; `memo_with_check_installs_requested`), witnesses corpus/authentic/F05d_*.json;
+* `installed_bytes_verified` (round 2) for ALL data sections that pass checkSums: after the (repaired) lazy installer every node
+                                  that holds file content reads — by name through the lazy tar FS, last entry of a name wins, links
+                                  followed inside the tar — exactly the body of the entry it was created from, and that body matches
+                                  the node's per-file record.  FALSE for the pinned installer (`pinned_serves_unverified_bytes`: F05e,
+                                  a same-name symlink with a copied record makes a regular file serve bytes that match no record;
+                                  `repaired_refuses_repeated_name`), witnesses corpus/authentic/F05e_*.json;
+* `ops_authentic`                 for every sequence of lock/build operations — each in a fresh process or in the process of the
+                                  previous one — starting from an empty cache root: every package of every operation that is
+                                  reported as done was expanded to bytes authentic for the checksum of its own handle, and (build)
+                                  every file laid out is recorded, is read back as the body of its own entry and matches its record.
+                                  `tie_impl_cfg`: that is the algorithm the code runs today.
+* `spec_ok_sound`, `expVerdict_ok_sound` the oracles evaluated by the driver (`Spec.pkgVerdict` on the bytes on offer, memo-blind;
+                                  `Spec.expVerdict` on what an operation actually expanded) answer `ok` only when the three
+                                  relations hold in their strict form (a data hash IS recorded and matches).
 Residual (finding F05c): the repair tolerates an EMPTY datahash (`DataMatches` has that disjunct); then the data section
 is covered by per-file records only — `empty_datahash_unauthenticated`.
 -/
 import Apko.Model.Authentic
 import Apko.Generated.Authentic
+import Apko.Proofs.Lemmas.AuthenticInstall
 
 namespace Apko.C05
 open Apko Apko.Authentic
@@ -94,6 +111,73 @@ theorem tie_writeHeader_reg : Generated.stmts_writeHeaderReg =
      "checksum, err := checksumFromHeader(&hdr)",
      "if err != nil → return-error",
      "if checksum == nil → return-error"] := rfl
+
+/-! #### round 2 -/
+
+/-- `(*APK).expandPackage` = the two branches of `Authentic.expandVia`: no cache directory → the package-level
+`expandPackage`, the memo is not touched; otherwise `globalApkCache.get` -/
+theorem tie_expandPackageMethod : Generated.stmts_expandPackageMethod =
+    ["if a.cache == nil → return expandPackage(ctx, a, pkg)",
+     "return globalApkCache.get(ctx, a, pkg)"] := rfl
+
+/-- `apkCache.get` = the cache branch of `Authentic.expandVia`: keyed by the URL, the once expands and stores the
+result (error or not) together with the checksum string of the handle; a later handle whose checksum string differs
+is expanded (and verified) directly, un-memoised; otherwise the stored result is the answer -/
+theorem tie_apkCacheGet : Generated.stmts_apkCacheGet =
+    ["u := pkg.URL()",
+     "once, _ := c.onces.LoadOrStore(u, &sync.Once{})",
+     "once.(*sync.Once).Do(func() { exp, err := expandPackage(ctx, a, pkg) c.resps.Store(u, apkResult{ exp: exp, err: err, checksum: pkg.ChecksumString(), }) })",
+     "v, ok := c.resps.Load(u)",
+     "if !ok → …",
+     "result := v.(apkResult)",
+     "if result.checksum != pkg.ChecksumString() → return expandPackage(ctx, a, pkg)",
+     "return result.exp, result.err"] := rfl
+
+theorem tie_apkResultStored : Generated.apkResultStored =
+    ["exp: exp", "err: err", "checksum: pkg.ChecksumString()"] := rfl
+
+/-- the model's switch for the memo check follows the code -/
+theorem tie_impl_memoChecks : Impl.memoChecks = true ∧ Generated.stmts_apkCacheGet[6]? =
+    some "if result.checksum != pkg.ChecksumString() → return expandPackage(ctx, a, pkg)" := ⟨rfl, rfl⟩
+
+/-- the loop of `lazilyInstallAPKFiles` = `Authentic.install`: EVERY entry of the tar index (hidden leading ones
+included) is entered into `seen` and a repeated name is an error, before the leading hidden entries are skipped and
+the others handed to `WriteHeader` in order -/
+theorem tie_lazyInstallLoop : Generated.stmts_lazyInstallLoop =
+    ["for _, file := range entries",
+     "if file.Header.Name == \"\" → return-error",
+     "if _, ok := seen[file.Header.Name]; ok → return-error",
+     "seen[file.Header.Name] = struct{}{}",
+     "if !startedDataSection && file.Header.Name[0] == '.' && !strings.Contains(file.Header.Name, \"/\") → continue",
+     "startedDataSection = true",
+     "installed, err := wh.WriteHeader(file.Header, tf, pkg)",
+     "if err != nil → return-error",
+     "if installed && file.Header.Typeflag == tar.TypeReg → …",
+     "files = append(files, file.Header)"] := rfl
+
+/-- the model's switch for the duplicate-name check follows the code -/
+theorem tie_impl_rejectsDup : Impl.rejectsDup = true ∧ Generated.stmts_lazyInstallLoop[2]? =
+    some "if _, ok := seen[file.Header.Name]; ok → return-error" := ⟨rfl, rfl⟩
+
+/-- the lazy tar FS = `Authentic.tarLookup` / `tarOpen`: the index is assigned per entry in archive order (the last
+entry of a name wins, whatever its type), `open` follows symlink and hard link entries inside the tar and fails
+after `maxHops` hops, any other entry is served from its own offset and size -/
+theorem tie_tarfsIndexAssign : Generated.tarfsIndexAssign = ["fsys.index[hdr.Name] = len(fsys.files)"] := rfl
+
+theorem tie_tarfsOpen : Generated.stmts_tarfsOpen =
+    ["if hops > maxHops → return-error",
+     "i, ok := fsys.index[name]",
+     "if !ok → return-error",
+     "e := fsys.files[i]",
+     "switch e.Header.Typeflag { case tar.TypeSymlink, tar.TypeLink: link := e.Header.Linkname if path.IsAbs(link) { return fsys.open(link, hops+1) } return fsys.open(path.Join(e.dir, link), hops+1) }",
+     "f := &File{ fsys: fsys, Entry: e, }",
+     "f.sr = io.NewSectionReader(fsys.ra, e.Offset, e.Header.Size)",
+     "return f, nil"] := rfl
+
+theorem tie_tarFuel : tarFuel = Generated.tarfsMaxHops + 1 := rfl
+
+/-- a tarfs-backed memFS node reads its bytes BY NAME (`Authentic.served`) -/
+theorem tie_memfsReadsTar : Generated.memfsReadsTar = ["anode.te.tfs.Open(anode.te.header.Name)"] := rfl
 
 /-! ### association lists -/
 
@@ -520,23 +604,23 @@ theorem lookup_put (s : Store) (k k' : Text) (c : Cache) :
     simp only [lookup, h, h', if_false]
     rw [lookup_filter_ne s k k' h]
 
-/-- one package of an operation: the store invariant is kept (whatever `verify` is), and with the repaired
-algorithm a verdict `ok` means authentic bytes (and, for a build, recorded files only) -/
-theorem runPkg_spec (verify : Bool) (L : Lib) (kind : OpKind) (uc : Bool) (s : Store) (p : PkgReq)
-    (hinv : StoreInv L s) :
-    StoreInv L (runPkg verify L kind uc s p).2 ∧
-    (verify = true → HexCanonical L → (runPkg verify L kind uc s p).1 = true →
-      ∃ e, Authentic L p.expected.digest e ∧ (kind = .build → FilesRecorded L e.files)) := by
-  unfold runPkg
+/-- the package-level `expandPackage` against the store: the store invariant is kept (whatever `verify` is), and with
+the verification step a success means authentic bytes for the checksum of the handle -/
+theorem expandDirect_spec (verify : Bool) (L : Lib) (uc : Bool) (st : Store) (p : PkgReq) (hinv : StoreInv L st) :
+    StoreInv L (expandDirect verify L uc st p).2 ∧
+    (verify = true → HexCanonical L → ∀ e, (expandDirect verify L uc st p).1 = .ok e →
+      Authentic L p.expected.digest e ∧ checkSums L e.files = true) := by
+  unfold expandDirect
   simp only
   split
-  · exact ⟨hinv, by intro _ _ h; cases h⟩
+  · exact ⟨hinv, by intro _ _ e h; cases h⟩
   · next e c' hexp =>
     constructor
     · cases c' with
       | none => exact hinv
       | some c1 =>
         intro k
+        simp only
         rw [lookup_put]
         split
         · cases uc with
@@ -547,69 +631,219 @@ theorem runPkg_spec (verify : Bool) (L : Lib) (kind : OpKind) (uc : Bool) (s : S
             simp only [if_true] at hexp
             exact cache_inv_preserved verify L p.expected _ c1 p.fetched e (hinv p.key) hexp
         · exact hinv k
-    · intro hv hx hok
+    · intro hv hx e' he'
       subst hv
-      have hcache : ∀ c, (if uc = true then some (s.cacheOf p.key) else none) = some c → CacheInv L c := by
+      cases he'
+      have hcache : ∀ c, (if uc = true then some (st.cacheOf p.key) else none) = some c → CacheInv L c := by
         intro c hc
         split at hc
         · cases hc; exact hinv p.key
         · cases hc
-      obtain ⟨hauth, hcs⟩ := install_authentic L hx p.expected _ c' p.fetched e hcache hexp
-      refine ⟨e, hauth, ?_⟩
-      intro hk
-      subst hk
-      exact installed_files_recorded L e.files hcs hok
+      exact install_authentic L hx p.expected _ c' p.fetched e hcache hexp
 
-theorem runPkgs_spec (verify : Bool) (L : Lib) (kind : OpKind) (uc : Bool) (ps : List PkgReq) (s : Store)
-    (hinv : StoreInv L s) :
-    StoreInv L (runPkgs verify L kind uc s ps).2 ∧
-    (verify = true → HexCanonical L → (runPkgs verify L kind uc s ps).1 = true →
-      ∀ p ∈ ps, ∃ e, Authentic L p.expected.digest e ∧ (kind = .build → FilesRecorded L e.files)) := by
+/-! ### round 2: the memo of the process (`globalApkCache`) -/
+
+/-- every memoised success is authentic for the checksum of the handle it was made for -/
+def MemoInv (L : Lib) (m : Memo) : Prop :=
+  ∀ u me e, lookup u m = some me → me.res = .ok e → Authentic L me.want.digest e ∧ checkSums L e.files = true
+
+def StateInv (L : Lib) (s : State) : Prop := StoreInv L s.store ∧ MemoInv L s.memo
+
+theorem memoInv_empty (L : Lib) : MemoInv L [] := by
+  intro u me e h; simp [lookup] at h
+
+theorem stateInv_empty (L : Lib) : StateInv L {} := ⟨storeInv_empty L, memoInv_empty L⟩
+
+/-- a new process keeps the cache root and forgets the memo -/
+theorem stateInv_enter (L : Lib) (s : State) (o : Op) (h : StateInv L s) : StateInv L (s.enter o) := by
+  unfold State.enter
+  split
+  · exact ⟨h.1, memoInv_empty L⟩
+  · exact h
+
+/-- the store invariant does not depend on any of the repairs (content addressing) -/
+theorem expandVia_store (verify cm : Bool) (L : Lib) (uc : Bool) (s : State) (p : PkgReq) (hinv : StoreInv L s.store) :
+    StoreInv L (expandVia verify cm L uc s p).2.store := by
+  unfold expandVia
+  split
+  · exact hinv
+  · split
+    · exact (expandDirect_spec verify L true s.store p hinv).1
+    · split
+      · exact hinv
+      · exact (expandDirect_spec verify L true s.store p hinv).1
+
+/-- `(*APK).expandPackage` with the verification step AND the memo check: the invariants are kept and a success
+means authentic bytes for the checksum of THIS handle — a memo entry is used only when it was made for the same
+checksum, anything else is expanded and verified directly -/
+theorem expandVia_spec (L : Lib) (hx : HexCanonical L) (uc : Bool) (s : State) (p : PkgReq) (hinv : StateInv L s) :
+    StateInv L (expandVia true true L uc s p).2 ∧
+    ∀ e, (expandVia true true L uc s p).1 = .ok e → Authentic L p.expected.digest e ∧ checkSums L e.files = true := by
+  unfold expandVia
+  split
+  · -- no cache directory: the memo is not used
+    exact ⟨hinv, (expandDirect_spec true L false s.store p hinv.1).2 rfl hx⟩
+  · split
+    · -- first handle of the URL in this process: expand, memoise
+      next hmiss =>
+      obtain ⟨h1, h2⟩ := expandDirect_spec true L true s.store p hinv.1
+      refine ⟨⟨h1, ?_⟩, h2 rfl hx⟩
+      intro u me e hl hr
+      simp only [lookup] at hl
+      split at hl
+      · cases hl; exact h2 rfl hx e hr
+      · exact hinv.2 u me e hl hr
+    · next m hhit =>
+      split
+      · -- answered from the memo: the entry was made for this very checksum
+        next hans =>
+        refine ⟨hinv, ?_⟩
+        intro e hr
+        have hw : m.want = p.expected := by
+          simp only [memoAnswers, Bool.not_true, Bool.false_or, Bool.and_eq_true, decide_eq_true_eq] at hans
+          exact hans.2
+        have := hinv.2 p.key m e hhit hr
+        rw [hw] at this
+        exact this
+      · -- made for another checksum: expanded and verified directly, the memo is left alone
+        obtain ⟨h1, h2⟩ := expandDirect_spec true L true s.store p hinv.1
+        exact ⟨⟨h1, hinv.2⟩, h2 rfl hx⟩
+
+/-! ### round 2: what the lazily installed files serve -/
+
+/-- T `installed_bytes_verified` (repaired installer): after `lazilyInstallAPKFiles` of a data section that passed
+`checkSums`, every node that holds file content reads — by name, through the lazy tar FS — exactly the body of the
+entry it was created from, and that body matches the per-file record the node carries.  For ALL data sections. -/
+theorem installed_bytes_verified (L : Lib) (es : List Entry) (ns : List Node) (hc : checkSums L es = true)
+    (h : install true es = some ns) :
+    ∀ nd ∈ ns, nd.isLink = false → served es nd = some nd.own ∧ L.sha1 nd.own = nd.sum := by
+  obtain ⟨hok, _, hnd⟩ := install_spec true es ns h
+  intro nd hmem hl
+  obtain ⟨e, he, hk, hname, hbody, hrec⟩ := hok nd hmem hl
+  constructor
+  · unfold served tarFuel
+    rw [← hname, ← hbody]
+    exact tarOpen_of_nodup es e (hnd rfl) he hk 64
+  · rw [← hbody]
+    exact filesChecked_of_checkSums L es hc e he hk nd.sum hrec
+
+/-- … in the decidable form the driver evaluates -/
+theorem servedOk_repaired (L : Lib) (es : List Entry) (ns : List Node) (hc : checkSums L es = true)
+    (h : install true es = some ns) : Spec.servedOk es ns = true := by
+  unfold Spec.servedOk
+  rw [List.all_eq_true]
+  intro nd hnd
+  have hm := List.mem_filter.1 hnd
+  have hl : nd.isLink = false := by
+    have := hm.2
+    simp only [Bool.and_eq_true, Bool.not_eq_true'] at this
+    exact this.1
+  simp [(installed_bytes_verified L es ns hc h nd hm.1 hl).1]
+
+/-- a build of one expanded package: what `installPkg` returns is what `install` returned -/
+theorem installPkg_install (rd : Bool) (es : List Entry) (ns : List Node) (h : installPkg rd es = some ns) :
+    install rd es = some ns := by
+  unfold installPkg at h
+  split at h
+  · cases h
+  · next ns' hi =>
+    split at h
+    · cases h; exact hi
+    · cases h
+
+/-! ### whole operation sequences (any mix of fresh and same-process operations) from an empty cache root -/
+
+/-- what the property demands of one package of an operation that was reported as done -/
+def PkgGood (L : Lib) (kind : OpKind) (p : PkgReq) (o : PkgOut) : Prop :=
+  o.ok = true →
+    ∃ e, o.exp = some e ∧ Authentic L p.expected.digest e ∧
+      (kind = .build → FilesRecorded L e.files ∧
+        ∀ nd ∈ o.nodes, nd.isLink = false → served e.files nd = some nd.own ∧ L.sha1 nd.own = nd.sum)
+
+theorem runPkg_store (cfg : Cfg) (L : Lib) (kind : OpKind) (uc : Bool) (s : State) (p : PkgReq)
+    (hinv : StoreInv L s.store) : StoreInv L (runPkg cfg L kind uc s p).2.store := by
+  have := expandVia_store cfg.verify cfg.checkMemo L uc s p hinv
+  unfold runPkg
+  split
+  · next hv => rw [hv] at this; exact this
+  · next hv =>
+    rw [hv] at this
+    split
+    · exact this
+    · split <;> exact this
+
+theorem runPkg_spec (L : Lib) (hx : HexCanonical L) (kind : OpKind) (uc : Bool) (s : State) (p : PkgReq)
+    (hinv : StateInv L s) :
+    StateInv L (runPkg Cfg.repaired L kind uc s p).2 ∧ PkgGood L kind p (runPkg Cfg.repaired L kind uc s p).1 := by
+  obtain ⟨h1, h2⟩ := expandVia_spec L hx uc s p hinv
+  unfold runPkg
+  simp only [Cfg.repaired]
+  split
+  · next hv =>
+    rw [hv] at h1
+    exact ⟨h1, by intro h; cases h⟩
+  · next e s' hv =>
+    rw [hv] at h1 h2
+    obtain ⟨hauth, hcs⟩ := h2 e rfl
+    split
+    · exact ⟨h1, fun _ => ⟨e, rfl, hauth, by intro hk; cases hk⟩⟩
+    · split
+      · exact ⟨h1, by intro h; cases h⟩
+      · next ns hi =>
+        refine ⟨h1, fun _ => ⟨e, rfl, hauth, fun _ => ⟨?_, ?_⟩⟩⟩
+        · have hins := installPkg_install true e.files ns hi
+          exact installed_files_recorded L e.files hcs (install_spec true e.files ns hins).2.1
+        · exact installed_bytes_verified L e.files ns hcs (installPkg_install true e.files ns hi)
+
+theorem runPkgs_spec (L : Lib) (hx : HexCanonical L) (kind : OpKind) (uc : Bool) (ps : List PkgReq) (s : State)
+    (hinv : StateInv L s) :
+    StateInv L (runPkgs Cfg.repaired L kind uc s ps).2 ∧
+    Pointwise (PkgGood L kind) ps (runPkgs Cfg.repaired L kind uc s ps).1 := by
   induction ps generalizing s with
-  | nil => exact ⟨hinv, by intro _ _ _ p hp; cases hp⟩
+  | nil => exact ⟨hinv, Pointwise.nil⟩
   | cons p ps ih =>
     simp only [runPkgs]
-    obtain ⟨h1, h2⟩ := runPkg_spec verify L kind uc s p hinv
-    obtain ⟨h3, h4⟩ := ih (runPkg verify L kind uc s p).2 h1
-    refine ⟨h3, ?_⟩
-    intro hv hx hok q hq
-    simp only [Bool.and_eq_true] at hok
-    rcases List.mem_cons.1 hq with rfl | hq
-    · exact h2 hv hx hok.1
-    · exact h4 hv hx hok.2 q hq
+    obtain ⟨h1, h2⟩ := runPkg_spec L hx kind uc s p hinv
+    obtain ⟨h3, h4⟩ := ih (runPkg Cfg.repaired L kind uc s p).2 h1
+    exact ⟨h3, Pointwise.cons h2 h4⟩
 
-/-- T `ops_authentic`: whatever lock/build operations ran before over the same cache root (with whatever the
-repository served at the time), starting from an empty root, an operation that succeeds used authentic bytes for
-every one of its packages -/
-theorem ops_authentic (L : Lib) (hx : HexCanonical L) (ops : List Op) (s : Store) (hinv : StoreInv L s) :
-    StoreInv L (runOps true L s ops).2 ∧
-    ∀ i (hi : i < ops.length), (runOps true L s ops).1[i]? = some true →
-      ∀ p ∈ ops[i].pkgs, ∃ e, Authentic L p.expected.digest e ∧ (ops[i].kind = .build → FilesRecorded L e.files) := by
+/-- T `ops_authentic`: whatever lock/build operations ran before over the same cache root — in earlier processes
+or in THIS process, with whatever the repository served and whatever the index / lock file recorded at the time —
+starting from an empty root, every package of every operation that was reported as done was expanded to bytes that
+are authentic for the checksum of ITS handle, and (build) every file laid out is recorded, is read back as the body
+of the entry it was created from, and matches that entry's per-file record. -/
+theorem ops_authentic (L : Lib) (hx : HexCanonical L) (ops : List Op) (s : State) (hinv : StateInv L s) :
+    StateInv L (runOps Cfg.repaired L s ops).2 ∧
+    Pointwise (fun o outs => Pointwise (PkgGood L o.kind) o.pkgs outs) ops (runOps Cfg.repaired L s ops).1 := by
   induction ops generalizing s with
-  | nil => exact ⟨hinv, by intro i hi; cases hi⟩
+  | nil => exact ⟨hinv, Pointwise.nil⟩
   | cons o os ih =>
     simp only [runOps]
-    obtain ⟨h1, h2⟩ := runPkgs_spec true L o.kind o.useCache o.pkgs s hinv
-    obtain ⟨h3, h4⟩ := ih (runOp true L s o).2 h1
-    refine ⟨h3, ?_⟩
-    intro i hi hok p hp
-    cases i with
-    | zero =>
-      simp only [List.getElem?_cons_zero, Option.some.injEq] at hok
-      exact h2 rfl hx hok p hp
-    | succ j =>
-      simp only [List.getElem?_cons_succ] at hok
-      exact h4 j (by simpa using hi) hok p hp
+    obtain ⟨h1, h2⟩ := runPkgs_spec L hx o.kind o.useCache o.pkgs (s.enter o) (stateInv_enter L s o hinv)
+    obtain ⟨h3, h4⟩ := ih (runOp Cfg.repaired L s o).2 h1
+    exact ⟨h3, Pointwise.cons h2 h4⟩
 
-/-- the invariant survives sequences of the PINNED algorithm too: a tampered package that was accepted before the
-repair sits in the cache under its own hashes and can never be returned for the authentic checksum -/
-theorem ops_inv_any (verify : Bool) (L : Lib) (ops : List Op) (s : Store) (hinv : StoreInv L s) :
-    StoreInv L (runOps verify L s ops).2 := by
+/-- the statement is about the algorithm the code runs today -/
+theorem tie_impl_cfg : Impl.cfg = Cfg.repaired := rfl
+
+/-- the store invariant survives sequences of ANY of the algorithms (pinned or repaired): a tampered package that was
+accepted before a repair sits in the cache under its own hashes and can never be returned for the authentic checksum -/
+theorem ops_inv_any (cfg : Cfg) (L : Lib) (ops : List Op) (s : State) (hinv : StoreInv L s.store) :
+    StoreInv L (runOps cfg L s ops).2.store := by
   induction ops generalizing s with
   | nil => exact hinv
   | cons o os ih =>
     simp only [runOps]
-    exact ih _ (runPkgs_spec verify L o.kind o.useCache o.pkgs s hinv).1
+    apply ih
+    unfold runOp
+    have hent : StoreInv L (s.enter o).store := by
+      unfold State.enter; split <;> exact hinv
+    generalize s.enter o = s0 at hent
+    induction o.pkgs generalizing s0 with
+    | nil => exact hent
+    | cons p ps ihp =>
+      simp only [runPkgs]
+      exact ihp _ (runPkg_store cfg L o.kind o.useCache s0 p hent)
 
 /-! ### the oracle the driver evaluates (`Spec.pkgVerdict`) says `ok` only when the three relations hold -/
 
@@ -729,6 +963,104 @@ theorem empty_datahash_unauthenticated :
     rw [this] at h2; exact (Option.some.inj h2).symm
   subst this
   revert h3; decide
+
+/-! ### round 2: the outcome oracle (`Spec.expVerdict`) says `ok` only when the three relations hold for what was expanded -/
+
+theorem expVerdict_ok_sound (L : Lib) (kind : OpKind) (w : Want) (e : Expanded)
+    (h : Spec.expVerdict L kind w e = "ok") :
+    ControlMatches L w.digest e.control ∧ ControlMatches L w.digest e.controlFile ∧
+    DataMatchesStrict L e.control e.data ∧ L.untarData e.data = some e.files ∧ checkSums L e.files = true ∧
+    (kind = .build → installFiles e.files = true) := by
+  unfold Spec.expVerdict at h
+  split at h
+  · exact absurd h (by decide)
+  · next hctl =>
+    split at h
+    · exact absurd h (by decide)
+    · next hd2 =>
+      split at h
+      · exact absurd h (by decide)
+      · next hfiles =>
+        split at h
+        · exact absurd h (by decide)
+        · next hd1 =>
+          simp only [Bool.not_eq_true, Bool.not_eq_false', Bool.and_eq_true, decide_eq_true_eq] at hctl hfiles
+          have hc1 : ControlMatches L w.digest e.control := by simpa [Spec.controlOk, ControlMatches] using hctl.1
+          have hc2 : ControlMatches L w.digest e.controlFile := by simpa [Spec.controlOk, ControlMatches] using hctl.2
+          obtain ⟨hf, hfe⟩ := hfiles
+          unfold Spec.filesOk at hf
+          rw [hfe] at hf
+          simp only [Bool.and_eq_true, Bool.or_eq_true, Bool.not_eq_true', decide_eq_false_iff_not] at hf
+          refine ⟨hc1, hc2, dataClass_strict L e.control e.data hd2 hd1, hfe, hf.1, ?_⟩
+          intro hk
+          rcases hf.2 with hn | hi
+          · exact absurd hk hn
+          · exact hi
+
+/-! ### round 2: the pinned algorithms violate the property (F05d, F05e) -/
+
+/-- the history of F05d: a build of URL `u` whose index records `aa` (served: control `[1]`, data `[10]`), then IN THE
+SAME PROCESS a build of the same URL from a handle that records `bb` (served now: control `[2]`, data `[20]`) -/
+def memoHistory : List Op :=
+  [ { kind := .build, useCache := true, fresh := true,
+      pkgs := [{ key := "u".toList, expected := ⟨some "aa".toList, true⟩, fetched := some ⟨none, [1], [10]⟩, raw := "Q1aa".toList }] },
+    { kind := .build, useCache := true, fresh := false,
+      pkgs := [{ key := "u".toList, expected := ⟨some "bb".toList, true⟩, fetched := some ⟨none, [2], [20]⟩, raw := "Q1bb".toList }] } ]
+
+/-- F05d: WITHOUT the memo check (verification step in place) the second build is reported as done with control `[1]`,
+whose checksum is `aa`, for a handle that records `bb` -/
+theorem memo_without_check_installs_other_checksum :
+    ∃ o e, (runOps { verify := true, checkMemo := false, rejectDup := true } toyLib {} memoHistory).1[1]? = some [o] ∧
+      o.ok = true ∧ o.exp = some e ∧ e.control = [1] ∧ ¬ ControlMatches toyLib (some "bb".toList) e.control := by
+  refine ⟨_, _, rfl, rfl, rfl, rfl, ?_⟩
+  show ¬ (some "bb".toList = some (toyLib.sha1 [1]))
+  decide
+
+/-- … with it, the same history installs control `[2]` for the second handle (and a third handle that records `bb`
+while `[1]` is served is refused) -/
+theorem memo_with_check_installs_requested :
+    (∃ o e, (runOps Cfg.repaired toyLib {} memoHistory).1[1]? = some [o] ∧ o.ok = true ∧ o.exp = some e ∧ e.control = [2]) ∧
+    (∃ o, (runOps Cfg.repaired toyLib {} (memoHistory.take 1 ++
+        [{ kind := .build, useCache := true, fresh := false,
+           pkgs := [{ key := "u".toList, expected := ⟨some "bb".toList, true⟩, fetched := some ⟨none, [1], [10]⟩,
+                      raw := "Q1bb".toList }] }])).1[1]? = some [o] ∧ o.ok = false) := by
+  exact ⟨⟨_, _, rfl, rfl, rfl, rfl⟩, ⟨_, rfl, rfl⟩⟩
+
+/-- the data section of F05e: a hidden leading entry `.x` of an unsupported, data-bearing type (body `[66]`, hashed
+by nobody), a regular file `d/a` (body `[65]`, record `aa`), and a symlink entry of the same name that copies the
+record and points at `.x` -/
+def dupEntries : List Entry :=
+  [ { name := ".x".toList, kind := .other, body := [66], recorded := .absent },
+    { name := "d/a".toList, kind := .reg, body := [65], recorded := .sum "aa".toList },
+    { name := "d/a".toList, kind := .symlink, body := [], recorded := .sum "aa".toList, link := "../.x".toList,
+      tarTarget := ".x".toList } ]
+
+def dupLib : Lib :=
+  { sha1 := fun b => if b = [65] then "aa".toList else "ee".toList,
+    sha256 := fun _ => "00".toList, untarData := fun _ => some dupEntries, pkginfo := fun _ => none }
+
+/-- F05e: the PINNED installer accepts the data section (it passes `checkSums`), keeps the node of the regular file
+(record `aa`) and serves the bytes of `.x` for it: they match neither the node's record nor the record of ANY entry -/
+theorem pinned_serves_unverified_bytes :
+    checkSums dupLib dupEntries = true ∧
+    ∃ ns nd, install false dupEntries = some ns ∧ readable dupEntries ns = true ∧ nd ∈ fileNodes ns ∧
+      nd.name = "d/a".toList ∧ nd.own = [65] ∧ served dupEntries nd = some [66] ∧ dupLib.sha1 [66] ≠ nd.sum ∧
+      ∀ e ∈ dupEntries, e.recorded ≠ .sum (dupLib.sha1 [66]) := by
+  refine ⟨by decide, _, _, rfl, by decide, List.mem_singleton.2 rfl, rfl, rfl, by decide, by decide, by decide⟩
+
+/-- … the repaired one refuses it -/
+theorem repaired_refuses_repeated_name : install true dupEntries = none := by decide
+
+/-- the hypotheses of `installed_bytes_verified` are satisfiable by a non-trivial value: two files, a symlink and a
+hard link, distinct names -/
+example :
+    let es : List Entry :=
+      [ { name := "d/a".toList, kind := .reg, body := [65], recorded := .sum "aa".toList },
+        { name := "d/l".toList, kind := .symlink, body := [], recorded := .sum "ee".toList, link := "a".toList, tarTarget := "d/a".toList },
+        { name := "d/h".toList, kind := .hardlink, body := [], recorded := .absent, link := "d/a".toList, tarTarget := "d/d/a".toList } ]
+    checkSums dupLib es = true ∧
+      (install true es).map (fun ns => (ns.length, (fileNodes ns).length)) = some (3, 1) := by
+  exact ⟨by decide, by decide⟩
 
 /-- the hypotheses of `install_authentic` are satisfiable by a non-trivial value: a warm cache holding the
 authentic package, hit by the expected checksum while the repository serves something else -/
